@@ -115,6 +115,11 @@ func successGuard(fn *ssa.Function, site ssa.Instruction, call *ssa.Call) (bool,
 	if len(es) == 0 {
 		return false, nil
 	}
+	// the call itself must be on every path (the error may flow through a
+	// phi shared with other calls), and so must one of its success edges
+	if ok, path := precededBy(fn, site, map[ssa.Instruction]bool{call: true}, nil); !ok {
+		return false, path
+	}
 	return guarded(fn, site, mkEdgeSet(es), nil)
 }
 
